@@ -56,16 +56,19 @@ const (
 	SecFnArgKind       // fa(r, VS<r>)                             an injected *function* handed a string for a numeric parameter
 	SecFnArgCount      // fa(r)                                    an injected function called with too few arguments (always fails)
 	SecLocStruct       // ls = H.Pt(r); ls.Y = 5; H.Y              a struct kept by value in a local, one field assigned (may fail)
+	SecElifCall        // if VB<r> { H.Y } else if H.C(r,p) { H.Y }  an else-if condition whose evaluation fails (panicking call)
+	SecForAcc          // ac = 0; for fi = 0; fi < 3; fi += 1 { ac = ac + 1; H.Y }; H.Acc(r, ac)   a counting loop with a scheduling point in its body
+	SecApiSet          // H.ApiIs(r, QA); QA = Req.ID; H.Y       reads, then assigns, a by-value entry of the pool's api map (the assignment may fail)
 	SecOptName         // H.OptSet(r); ov = r+300                  a plain name that some calls inject (then it is shared) and others do not (then it is a local)
 	numSecKinds
 )
 
-var secNames = [...]string{"Y", "Call", "AsgCall", "AsgKind", "Div", "Idx", "Nil", "Unknown", "Arg", "IfKind", "IfIdx", "IfNil", "Elif", "ForKind", "ForStep", "Unb", "UnbCont", "Conc", "Local", "Reader", "Stop", "ShW", "ShR", "Upd", "Echo", "Opt", "IfCall", "ForRange", "MapIdx", "SetKind", "SetNil", "RangeKey", "ThreeNil", "IfThreeNil", "ArgCount", "NilMapSet", "FuncCall", "IfFunc", "ThreeSet", "LocObj", "LocObjReader", "LocAlias", "FnArgKind", "FnArgCount", "LocStruct", "OptName"}
+var secNames = [...]string{"Y", "Call", "AsgCall", "AsgKind", "Div", "Idx", "Nil", "Unknown", "Arg", "IfKind", "IfIdx", "IfNil", "Elif", "ForKind", "ForStep", "Unb", "UnbCont", "Conc", "Local", "Reader", "Stop", "ShW", "ShR", "Upd", "Echo", "Opt", "IfCall", "ForRange", "MapIdx", "SetKind", "SetNil", "RangeKey", "ThreeNil", "IfThreeNil", "ArgCount", "NilMapSet", "FuncCall", "IfFunc", "ThreeSet", "LocObj", "LocObjReader", "LocAlias", "FnArgKind", "FnArgCount", "LocStruct", "ElifCall", "ForAcc", "ApiSet", "OptName"}
 
 // FaultCapable reports whether a section hosts a fault point.
 func FaultCapable(k int) bool {
 	switch k {
-	case SecCall, SecAsgCall, SecAsgKind, SecDiv, SecIdx, SecNil, SecUnknown, SecArg, SecIfKind, SecIfIdx, SecIfNil, SecElif, SecForKind, SecForStep, SecUnb, SecUnbCont, SecConc, SecIfCall, SecForRange, SecMapIdx, SecSetKind, SecSetNil, SecThreeNil, SecIfThreeNil, SecArgCount, SecNilMapSet, SecFuncCall, SecIfFunc, SecThreeSet, SecFnArgKind, SecFnArgCount:
+	case SecCall, SecAsgCall, SecAsgKind, SecDiv, SecIdx, SecNil, SecUnknown, SecArg, SecIfKind, SecIfIdx, SecIfNil, SecElif, SecForKind, SecForStep, SecUnb, SecUnbCont, SecConc, SecIfCall, SecForRange, SecMapIdx, SecSetKind, SecSetNil, SecThreeNil, SecIfThreeNil, SecArgCount, SecNilMapSet, SecFuncCall, SecIfFunc, SecThreeSet, SecFnArgKind, SecFnArgCount, SecElifCall:
 		return true
 	}
 	return false
@@ -74,7 +77,7 @@ func FaultCapable(k int) bool {
 // MarkerFault reports whether the fault of a section is a panic of an injected
 // method carrying a unique marker string.
 func MarkerFault(k int) bool {
-	return k == SecCall || k == SecAsgCall || k == SecIfCall || k == SecFuncCall || k == SecIfFunc
+	return k == SecCall || k == SecAsgCall || k == SecIfCall || k == SecFuncCall || k == SecIfFunc || k == SecElifCall
 }
 
 // Return shapes of a rule.
@@ -140,9 +143,11 @@ func (r *RuleDef) YieldKs() []int {
 		case SecY:
 			ks = append(ks, yk)
 			yk++
-		case SecRangeKey, SecLocObj, SecLocAlias, SecLocStruct:
+		case SecRangeKey, SecLocObj, SecLocAlias, SecLocStruct, SecForAcc, SecApiSet:
 			ks = append(ks, yk)
 			yk++
+		case SecElifCall:
+			yk += 2
 		case SecIfFunc:
 			ks = append(ks, yk)
 			yk++
@@ -412,6 +417,15 @@ func (r *RuleDef) Render() string {
 			hasLocal = true
 		case SecReader:
 			fmt.Fprintf(&b, "H.B(%d,%d)\nH.SameAny(%d,%s)\n", id, p, id, r.ReaderName(s.Arg))
+		case SecElifCall:
+			fmt.Fprintf(&b, "if VB%d {\nH.Y(%d,%d)\n} else if H.C(%d,%d) {\nH.Y(%d,%d)\n}\n", id, id, yk, id, p, id, yk+1)
+			yk += 2
+		case SecForAcc:
+			fmt.Fprintf(&b, "ac%d = 0\nfor fi%d = 0; fi%d < 3; fi%d += 1 {\nac%d = ac%d + 1\nH.Y(%d,%d)\n}\nH.Acc(%d, ac%d)\n", p, p, p, p, p, p, id, yk, id, p)
+			yk++
+		case SecApiSet:
+			fmt.Fprintf(&b, "H.ApiIs(%d, QA)\nH.M(%d,%d)\nQA = Req.ID\nH.Y(%d,%d)\n", id, id, p, id, yk)
+			yk++
 		case SecFnArgKind:
 			fmt.Fprintf(&b, "H.B(%d,%d)\nfa(%d, VS%d)\n", id, p, id, id)
 		case SecFnArgCount:
